@@ -1,1 +1,204 @@
-pub fn main(_args: &[String]) -> i32 { 2 }
+//! C16, modes part: replay the cases generated from spec/hash/GenSponge.tla on the real entry points
+//! (hash, hash_elements, merge, merge_many, merge_with_int of Rp64_256, RpJive64_256, Rp62_248).
+//!
+//! The expected digest of a case is a TERM computed by the specification (Sponge.tla): an initial
+//! state, one block of `add` / `set` operations per permutation call, and an output rule.  The term is
+//! evaluated here with the REAL permutation and the real field addition — structure (capacity
+//! initialisation, chunking, absorption schedule, padding, Jive summation, digest words) comes from the
+//! specification only — and compared (plain equality of canonical integers) with what the real entry
+//! point returned.
+use serde_json::{json, Value};
+use wfcommon::util::{bytes_of, catch, read_ndjson, Out};
+use winter_crypto::{ElementHasher, Hasher};
+use winter_math::{
+    fields::{CubeExtension, QuadExtension},
+    ExtensibleField, FieldElement, StarkField,
+};
+
+use crate::hashers::{le_vec, u64_of, Jive, Rh, Rp62, Rp64};
+
+/// evaluates a plan; returns the digest words as canonical integers
+pub fn eval_plan<R: Rh>(exp: &Value) -> Result<Vec<u64>, String> {
+    let init = exp["init"].as_array().ok_or("plan without init")?;
+    if init.len() != R::W {
+        return Err(format!("plan state width {} for {}", init.len(), R::TAG));
+    }
+    let mut state: Vec<R::F> = init.iter().map(|v| R::new(u64_of(v))).collect();
+    let mut first: Option<Vec<R::F>> = None;
+    for block in exp["blocks"].as_array().ok_or("plan without blocks")? {
+        for op in block.as_array().ok_or("bad block")? {
+            let i = op["i"].as_u64().ok_or("op without position")? as usize;
+            if i < 1 || i > R::W {
+                return Err(format!("position {i} out of range"));
+            }
+            let v = R::new(u64_of(&op["v"]));
+            match op["k"].as_str() {
+                Some("add") => state[i - 1] += v,
+                Some("set") => state[i - 1] = v,
+                k => return Err(format!("unknown op {k:?}")),
+            }
+        }
+        if first.is_none() {
+            first = Some(state.clone());
+        }
+        R::perm(&mut state);
+    }
+    let out = &exp["out"];
+    match out["k"].as_str() {
+        Some("words") => {
+            let pos = out["pos"].as_array().ok_or("words without pos")?;
+            Ok(pos.iter().map(|p| state[p.as_u64().unwrap_or(1) as usize - 1].as_int()).collect())
+        },
+        Some("jive") => {
+            let first = first.ok_or("jive output without a permutation")?;
+            let mut res = vec![];
+            for grp in out["pos"].as_array().ok_or("jive without pos")? {
+                let mut acc = R::F::ZERO;
+                for p in grp.as_array().ok_or("bad jive group")? {
+                    let k = p.as_u64().unwrap_or(1) as usize - 1;
+                    acc += first[k];
+                }
+                for p in grp.as_array().ok_or("bad jive group")? {
+                    let k = p.as_u64().unwrap_or(1) as usize - 1;
+                    acc += state[k];
+                }
+                res.push(acc.as_int());
+            }
+            Ok(res)
+        },
+        k => Err(format!("unknown output rule {k:?}")),
+    }
+}
+
+/// element of canonical value v; odd selectors go through a recipe that leaves a different internal
+/// representation where the field has one (the specification only knows the value)
+fn elem<R: Rh>(v: u64, sel: usize) -> R::F {
+    if sel % 2 == 1 {
+        R::alt(v, sel / 2)
+    } else {
+        R::new(v)
+    }
+}
+
+fn digest_of<R: Rh>(d: &Value, sel: usize) -> Result<<R::H as Hasher>::Digest, String> {
+    let a = d.as_array().ok_or("digest must be an array")?;
+    if a.len() != 4 {
+        return Err("digest must have 4 elements".into());
+    }
+    Ok(R::digest([
+        elem::<R>(u64_of(&a[0]), sel),
+        elem::<R>(u64_of(&a[1]), sel + 1),
+        elem::<R>(u64_of(&a[2]), sel + 2),
+        elem::<R>(u64_of(&a[3]), sel + 3),
+    ]))
+}
+
+/// calls the real entry point of a case; returns the digest elements as canonical integers
+pub fn call_real<R: Rh>(c: &Value, sel: usize) -> Result<Vec<u64>, String>
+where
+    R::F: ExtensibleField<2> + ExtensibleField<3>,
+{
+    let op = c["op"].as_str().unwrap_or("");
+    let ds: Vec<<R::H as Hasher>::Digest> = match c["ds"].as_array() {
+        Some(a) => a.iter().enumerate().map(|(j, d)| digest_of::<R>(d, sel + j)).collect::<Result<_, _>>()?,
+        None => vec![],
+    };
+    let d = match op {
+        "hash" => <R::H as Hasher>::hash(&bytes_of(&c["bytes"])),
+        "hash_elements" => {
+            let vals: Vec<R::F> = c["elems"]
+                .as_array()
+                .ok_or("no elems")?
+                .iter()
+                .enumerate()
+                .map(|(i, v)| elem::<R>(u64_of(v), sel + i))
+                .collect();
+            match c["deg"].as_u64().unwrap_or(1) {
+                1 => <R::H as ElementHasher>::hash_elements(&vals),
+                2 => {
+                    let es: Vec<QuadExtension<R::F>> =
+                        vals.chunks(2).map(|c| QuadExtension::new(c[0], c[1])).collect();
+                    <R::H as ElementHasher>::hash_elements(&es)
+                },
+                3 => {
+                    let es: Vec<CubeExtension<R::F>> =
+                        vals.chunks(3).map(|c| CubeExtension::new(c[0], c[1], c[2])).collect();
+                    <R::H as ElementHasher>::hash_elements(&es)
+                },
+                d => return Err(format!("unsupported degree {d}")),
+            }
+        },
+        "merge" => {
+            if ds.len() != 2 {
+                return Err("merge needs two digests".into());
+            }
+            <R::H as Hasher>::merge(&[ds[0], ds[1]])
+        },
+        "merge_many" => <R::H as Hasher>::merge_many(&ds),
+        "merge_with_int" => {
+            if ds.len() != 1 {
+                return Err("merge_with_int needs one digest".into());
+            }
+            let b = bytes_of(&c["int"]);
+            if b.len() != 8 {
+                return Err("int must have 8 bytes".into());
+            }
+            <R::H as Hasher>::merge_with_int(ds[0], u64::from_le_bytes(b.try_into().unwrap()))
+        },
+        _ => return Err(format!("unknown op {op}")),
+    };
+    Ok(R::digest_elements(&d).iter().map(|e| e.as_int()).collect())
+}
+
+fn run_one<R: Rh>(idx: usize, sc: &Value) -> Result<Option<Value>, String>
+where
+    R::F: ExtensibleField<2> + ExtensibleField<3>,
+{
+    let c = &sc["c"];
+    // both representations of the arguments: plain and through the alternative recipes
+    for sel in [0usize, 1 + 2 * (idx % 8)] {
+        let got = match catch(|| call_real::<R>(c, sel)) {
+            Ok(r) => r?,
+            Err(p) => {
+                return Ok(Some(json!({"kind": "panic", "h": R::TAG, "op": c["op"], "panic": p, "rep": sel})));
+            },
+        };
+        let exp = match catch(|| eval_plan::<R>(&sc["exp"])) {
+            Ok(r) => r?,
+            Err(p) => return Err(format!("term evaluation panicked: {p}")),
+        };
+        if got != exp {
+            return Ok(Some(json!({"kind": "digest", "h": R::TAG, "op": c["op"], "rep": sel,
+                "expected": le_vec(&exp), "got": le_vec(&got)})));
+        }
+    }
+    Ok(None)
+}
+
+pub fn main(args: &[String]) -> i32 {
+    let scenarios = read_ndjson(&args[0]);
+    let mut out = Out::new();
+    let mut bad = 0usize;
+    for (i, sc) in scenarios.iter().enumerate() {
+        let r = match sc["c"]["h"].as_str() {
+            Some("rp64") => run_one::<Rp64>(i, sc),
+            Some("jive") => run_one::<Jive>(i, sc),
+            Some("rp62") => run_one::<Rp62>(i, sc),
+            h => Err(format!("unknown hasher {h:?}")),
+        };
+        match r {
+            Ok(None) => {},
+            Ok(Some(d)) => {
+                bad += 1;
+                out.emit(&json!({"i": i, "ok": false, "detail": d}));
+            },
+            Err(e) => {
+                // a malformed scenario is a tool error, reported as such
+                out.emit(&json!({"i": i, "tool_error": e}));
+            },
+        }
+    }
+    out.emit(&json!({"summary": true, "scenarios": scenarios.len(), "mismatches": bad}));
+    out.flush();
+    0
+}
